@@ -145,6 +145,22 @@ fn mk(seed: u8, maxtx: u64, extra: u64, auto_merge: bool) -> Ctx {
     chain.initialize().unwrap();
     Ctx { chain: Arc::new(chain), me, v2, unk, extra, maxtx }
 }
+/// auto-merge on and a NON-EMPTY global codebook (one centroid (1,0)): merge candidates go through the transition
+/// validator, which refuses e.g. the merged delta (1,0)+(0,1)
+fn mk_codebook(seed: u8, maxtx: u64) -> Ctx {
+    use tensor_chain::{AutoMergeConfig, CodebookConfig, GlobalCodebook, ValidationConfig};
+    let auto = AutoMergeConfig::default().with_threshold(0.2).with_window(10_000);
+    let cfg = ChainConfig::new("x").with_max_txs(maxtx as usize).with_auto_merge_config(auto);
+    let chain = TensorChain::with_codebook(
+        TensorStore::new(),
+        cfg,
+        GlobalCodebook::from_centroids(vec![vec![1.0, 0.0]]),
+        CodebookConfig::default(),
+        ValidationConfig::default(),
+    );
+    chain.initialize().unwrap();
+    Ctx { chain: Arc::new(chain), me: ident(seed), v2: ident(seed.wrapping_add(101)), unk: ident(seed.wrapping_add(202)), extra: 0, maxtx }
+}
 impl Ctx {
     fn ver(&self) -> u64 {
         code(&self.chain.verify())
@@ -1082,18 +1098,27 @@ fn main() {
     for mi in 0..nmerge {
         let kk = 6u64;
         let auto = mi % 3 != 0;
-        let c = mk(next_seed(), 8, 0, auto);
+        // every 4th case (and the two corpus cases first): trained codebook, 2-dimensional deltas
+        let trained = mi < 2 || mi % 4 == 3;
+        let c = if trained { mk_codebook(next_seed(), 8) } else { mk(next_seed(), 8, 0, auto) };
+        let auto = auto || trained;
         let mut uniq = 0u8;
-        let nws = rng.range(2, 4) as usize;
+        let nws = if mi < 2 { 2 } else { rng.range(2, 4) as usize };
         let wss: Vec<Vec<Tx>> = (0..nws)
             .map(|_| {
-                let ntx = if rng.chance(1, 8) { 0 } else { rng.range(1, 2) as usize };
+                let ntx = if mi >= 2 && rng.chance(1, 8) { 0 } else { rng.range(1, 2) as usize };
                 let kr = if rng.chance(1, 2) { 2 } else { kk };
                 gen_txs_unique(&mut rng, kr, ntx, &mut uniq)
             })
             .collect();
         // embedding direction per workspace: None = no embedding; equal directions conflict, different ones are orthogonal
-        let dirs: Vec<Option<usize>> = (0..nws).map(|_| if rng.chance(1, 5) { None } else { Some(rng.below(3) as usize) }).collect();
+        let mut dirs: Vec<Option<usize>> = (0..nws)
+            .map(|_| if rng.chance(1, 5) { None } else { Some(rng.below(if trained { 2 } else { 3 }) as usize) })
+            .collect();
+        if mi < 2 {
+            // corpus (seeded C16-r3-2 shape): A along the centroid, B orthogonal; commit(A) must not carry B's operations
+            dirs = vec![Some(0), Some(1)];
+        }
         let works: Vec<Arc<TransactionWorkspace>> = wss
             .iter()
             .zip(&dirs)
@@ -1103,19 +1128,24 @@ fn main() {
                     w.add_operation(t.real()).unwrap();
                 }
                 if let Some(d) = d {
-                    let before = vec![0.0f32; 128];
-                    let mut after = vec![0.0f32; 128];
-                    after[*d * 7] = 1.0 + rng.below(3) as f32;
+                    let dim = if trained { 2 } else { 128 };
+                    let before = vec![0.0f32; dim];
+                    let mut after = vec![0.0f32; dim];
+                    after[if trained { *d } else { *d * 7 }] = if trained { 1.0 } else { 1.0 + rng.below(3) as f32 };
                     w.set_before_embedding(&before);
                     w.compute_delta(&after);
                 }
                 w
             })
             .collect();
-        let concurrent = mi % 2 == 1;
+        let concurrent = mi >= 2 && if trained { (mi / 4) % 2 == 1 } else { mi % 2 == 1 };
         let mut order: Vec<usize> = (0..nws).collect();
-        rng.shuffle(&mut order);
-        if rng.chance(1, 3) {
+        if mi >= 2 {
+            rng.shuffle(&mut order);
+        } else if mi == 1 {
+            order = vec![0]; // B never calls commit
+        }
+        if mi >= 2 && rng.chance(1, 3) {
             order.truncate(nws - 1); // somebody never calls commit (may still be absorbed by a merge)
         }
         let res: Arc<Mutex<Vec<u64>>> = Arc::new(Mutex::new(vec![98; nws]));
@@ -1149,7 +1179,10 @@ fn main() {
         let n = c.chain.height();
         let chain_txs: Vec<Vec<Tx>> = (1..=n).map(|h| c.block(h).map(|b| b.transactions.iter().filter_map(Tx::of).collect()).unwrap_or_default()).collect();
         let merged_blocks = chain_txs.iter().filter(|b| wss.iter().filter(|l| !l.is_empty() && b.len() > l.len() && b.windows(l.len()).any(|w| w == &l[..])).count() >= 2).count();
-        dist.hit(&format!("merge.auto_{}.{}", auto, if concurrent { "concurrent" } else { "sequential" }));
+        dist.hit(&format!("merge.auto_{}.{}{}", auto, if concurrent { "concurrent" } else { "sequential" }, if trained { ".trained_codebook" } else { "" }));
+        for w in &works {
+            dist.hit(&format!("merge.final_state.{:?}", w.state()));
+        }
         dist.add("merge.blocks_holding_several_workspaces", merged_blocks as u64);
         for r in &res {
             dist.hit(&format!("merge.result.{r}"));
@@ -1170,6 +1203,101 @@ fn main() {
             &format!("auto_merge={} concurrent={} workspaces={:?} directions={:?} commit_order={:?} results={:?} committed={:?} blocks={:?}", auto, concurrent, wss, dirs, order, res, comm, chain_txs),
             comm.iter().filter(|x| **x).count() >= 2,
         );
+    }
+
+    // ---- dup: several commit() calls on ONE workspace, from several threads.  The schedule point
+    // chain.workspace.is_active lets every caller that tests is_active() before claiming the workspace wait for the
+    // others (a check-then-claim in two steps is then hit deterministically); code that claims under one lock never
+    // reaches the point here (the workspace is the only active one) and runs freely.
+    let mut dup = CaseWriter::new(&args.out, "dup");
+    let ndup = args.budget(16, 400);
+    for di in 0..ndup {
+        let c = mk(next_seed(), 8, 0, di % 2 == 0);
+        let mut uniq = 0u8;
+        // a prefix of ordinary commits
+        for _ in 0..rng.below(3) {
+            let l = gen_txs_unique(&mut rng, 4, 1, &mut uniq);
+            let w = c.chain.begin().unwrap();
+            for t in &l {
+                w.add_operation(t.real()).unwrap();
+            }
+            c.chain.commit(&w).unwrap();
+        }
+        let ntx = rng.range(1, 3) as usize;
+        let ops = gen_txs_unique(&mut rng, 4, ntx, &mut uniq);
+        let w = c.chain.begin().unwrap();
+        for t in &ops {
+            w.add_operation(t.real()).unwrap();
+        }
+        let ncall = if di == 0 { 2 } else { rng.range(2, 4) as usize };
+        let arrived = Arc::new((Mutex::new(0usize), Condvar::new()));
+        let go = Arc::new((Mutex::new(false), Condvar::new()));
+        {
+            let (arrived, go) = (arrived.clone(), go.clone());
+            tensor_store::verif_hook::set(Some(Arc::new(move |name: &str| {
+                if name != "chain.workspace.is_active" || TID.with(|t| t.get()) == usize::MAX {
+                    return;
+                }
+                {
+                    let mut n = arrived.0.lock().unwrap();
+                    *n += 1;
+                    arrived.1.notify_all();
+                }
+                let mut g = go.0.lock().unwrap();
+                let deadline = std::time::Instant::now() + Duration::from_millis(600);
+                while !*g {
+                    let left = deadline.saturating_duration_since(std::time::Instant::now());
+                    if left.is_zero() {
+                        break;
+                    }
+                    g = go.1.wait_timeout(g, left).unwrap().0;
+                }
+            })));
+        }
+        let bar = Arc::new(Barrier::new(ncall));
+        let hs: Vec<_> = (0..ncall)
+            .map(|i| {
+                let (ch, w, bar) = (c.chain.clone(), w.clone(), bar.clone());
+                std::thread::spawn(move || {
+                    TID.with(|t| t.set(i));
+                    bar.wait();
+                    code(&ch.commit(&w))
+                })
+            })
+            .collect();
+        // let every caller that reaches the point gather there (nobody does when the claim is atomic), then go
+        {
+            let mut n = arrived.0.lock().unwrap();
+            let deadline = std::time::Instant::now() + Duration::from_millis(150);
+            while *n < ncall {
+                let left = deadline.saturating_duration_since(std::time::Instant::now());
+                if left.is_zero() {
+                    break;
+                }
+                n = arrived.1.wait_timeout(n, left).unwrap().0;
+            }
+            if *n > 0 {
+                dist.add("dup.callers_parked_between_check_and_claim", *n as u64);
+            }
+        }
+        *go.0.lock().unwrap() = true;
+        go.1.notify_all();
+        let res: Vec<u64> = hs.into_iter().map(|h| h.join().unwrap_or(97)).collect();
+        tensor_store::verif_hook::set(None);
+        let n = c.chain.height();
+        let chain_txs: Vec<Vec<Tx>> = (1..=n).map(|h| c.block(h).map(|b| b.transactions.iter().filter_map(Tx::of).collect()).unwrap_or_default()).collect();
+        for r in &res {
+            dist.hit(&format!("dup.result.{r}"));
+        }
+        let t = format!(
+            "({}, ({}, {}, {}, {}))",
+            c.extra,
+            txs_coq(&ops),
+            list(res.iter().map(|x| n_(*x))),
+            list(chain_txs.iter().map(|l| txs_coq(l))),
+            c.ver()
+        );
+        dup.push(&t, &format!("{} threads call commit() on one workspace {:?}: results={:?} blocks={:?}", ncall, ops, res, chain_txs), true);
     }
 
     // ---- replay: the same blocks on two replicas
@@ -1376,10 +1504,10 @@ fn main() {
         &args.out,
         json!({
             "property": "C16", "seed": args.seed, "tier": args.tier,
-            "kinds": [seq.summary(), layout.summary(), tamper.summary(), conc.summary(), merge.summary(), replay.summary()],
+            "kinds": [seq.summary(), layout.summary(), tamper.summary(), conc.summary(), merge.summary(), dup.summary(), replay.summary()],
             "distribution": dist.json(),
             "hits": hits.0,
-            "nontrivial_rule": "seq: >= 3 calls with at least one successful commit; tamper: every case (a mutated stored block); conc: every case (>= 2 concurrent commits); merge: at least two workspaces end Committed; replay: at least one block accepted; layout: a non-genesis committed header or a crafted one with codes/embedding",
+            "nontrivial_rule": "seq: >= 3 calls with at least one successful commit; tamper: every case (a mutated stored block); conc: every case (>= 2 concurrent commits); merge: at least two workspaces end Committed; dup: every case (>= 2 commit() calls on one workspace); replay: at least one block accepted; layout: a non-genesis committed header or a crafted one with codes/embedding",
         }),
     );
 }
